@@ -63,7 +63,7 @@ Proof.
 Qed.
 Print Assumptions C05_elevation_range.
 
-(* azimuth, clockwise from north, in [0, 2 pi): module function for every direction that has a
+(* azimuth, clockwise from north, in [0, 2 pi] (the property's closed [0, 360] deg): module function for every direction that has a
    horizontal component; object method (arctan + quadrant fixes) whenever the north component
    is non-zero (with N = 0 exactly the code divides by zero: see DESIGN.md N3) *)
 Theorem C05_azimuth_module : forall x y z ox oy oz g lon lat,
